@@ -112,6 +112,13 @@ def step (s : S) (line : String) : S × String :=
   | "pos" =>
     let (p, fs) := s.fs.positionFor arg.toInt!
     (⟨fs, s.n⟩, showPos p)
+  | "fpos" =>
+    match args with
+    | [i, p] =>
+      match s.fs.files[i.toNat!]? with
+      | some f => (s, showPos (f.positionFor p.toInt!))
+      | none => (s, "nofile")
+    | _ => (s, "bad-op")
   | "file" =>
     let (r, fs) := s.fs.fileOf arg.toInt!
     (⟨fs, s.n⟩, match r with
